@@ -172,7 +172,7 @@ CHECKS["C10"] = {
     "technique": "exhaustive enumeration (choice-tree DFS) of per-attempt outcomes x cancellation instants x jitter extremes on the real ServerPool.handle in virtual time (testing/synctest)",
     "level_text": "for 26 retry/timeout/stream configurations every vector of per-attempt backend outcomes (ok, 503, network error, hang, slow ok, slow 503), every cancellation instant of the menu "
                   "and the extremes/middle of every jitter draw are executed on the real retry wrapper + pool; oracle: attempts <= maxAttempts, stop at first success, back-off lower bound on the virtual clock, "
-                  "no attempt after cancel, final status/result = last attempt's, stream bodies sent once, per-attempt timeout => 408/timeout; breaker around retry opens at the N-th failed CLIENT request and then answers 503 shortCircuited without calling the backend; client requests cancelled inside an attempt or a back-off still record one outcome (kind-agnostic: window 2 / 50% must be open after two requests of which one really failed); retry chains of 4 (thorough: 5) attempts: the exponential back-off keeps compounding",
+                  "no attempt after cancel, final status/result = last attempt's, stream bodies sent once, per-attempt timeout => 408/timeout; breaker around retry opens at the N-th failed CLIENT request and then answers 503 shortCircuited without calling the backend; client requests cancelled inside an attempt or a back-off still record one outcome (kind-agnostic: window 2 / 50% must be open after two requests of which one really failed); retry chains of 4 attempts: the exponential back-off keeps compounding",
     "level_note": "fnSendRequest stubbed; math/rand of pkg/resilience/retry.go replaced by vrand (5 representative answers per draw: 0,1,n/2,n-2,n-1); virtual time from synctest",
     "rule": "choice tree: cancel instant, outcome of each attempt actually made, jitter representative; distinct_nontrivial = distinct (attempt count, final status, result) classes",
     "explanation": "states = executions; each execution ran the real handle() to completion on the virtual clock",
